@@ -314,6 +314,14 @@ func c13BuildSpecials() {
 	} {
 		add("pipe-head/expr", e)
 	}
+	// a variable that is present with a nil value and named like a registered function is still the variable
+	for _, e := range []c13E{
+		c13Bin("==", c13Call("default", c13P("hNil"), c13Str("fb")), c13Str("fb")), c13Call("default", c13P("hNil"), c13Str("fb")),
+		c13Tern(c13Bin("==", c13Call("default", c13P("hNil"), c13Str("fb")), c13Str("fb")), s1, s2), c13Bin("&&", c13P("bt"), c13Bin("==", c13Call("default", c13P("hNil"), c13Str("k1")), c13Str("k1"))),
+		c13Bin("+", c13Call("default", c13P("hNil"), c13Str("fb")), s1),
+	} {
+		add("nil-variable-named-like-a-function", e)
+	}
 	// the strict comparison operators are data inside a quoted string
 	for _, e := range []c13E{
 		c13Str("a===b"), c13Str("x!==y"), c13Bin("==", c13Str("a===b"), s1), c13Bin("+", s1, c13Str("!==")), c13Pipe(c13Str("a===b"), c13Call("upper")), c13Call("hCat", s1, c13Str("===")),
